@@ -37,7 +37,7 @@ func DrawFunctional(rt *rapid.T, o FuncOpt) *Subject {
 	p.Add("var Anchor = 0\n")
 	modes := o.Modes
 	if len(modes) == 0 {
-		modes = []string{"named", "unnamed", "blank", "hostile"}
+		modes = []string{"named", "unnamed", "blank", "hostile", "minted"}
 	}
 	for i := 0; len(s.Entries) < o.N && i < o.N*4; i++ {
 		id := fmt.Sprintf("T%d", len(s.Entries))
